@@ -299,8 +299,11 @@ def run_property(prop, tier, seed, root):
     }
     ev = {"property_id": prop, "tier": tier, "seed": seed, "level": level, "coverage": cov,
           "assumptions": trusted + cfg.get("assumptions", []), "wall_s": round(wall, 2), "violations": len(violations)}
-    os.makedirs(os.path.join(HERE, "evidence"), exist_ok=True)
-    with open(os.path.join(HERE, "evidence", f"{prop}.json"), "w") as fh:
+    # evidence of runs against another tree (VERIF_REPO=<scratch copy>, mutation testing) must not
+    # overwrite the evidence of the registered check on /repo
+    evdir = os.path.join(HERE, "evidence") if os.path.realpath(root) == "/repo" else os.path.join(HERE, "evidence", ".scratch")
+    os.makedirs(evdir, exist_ok=True)
+    with open(os.path.join(evdir, f"{prop}.json"), "w") as fh:
         json.dump(ev, fh, indent=1, default=str)
     for l in lines:
         print(l)
